@@ -8,3 +8,7 @@ package pages
 //@   property C10, C02
 //@   flags readonly
 //@   ensures nonneg: !err ==> n >= 0
+
+// The page tree is walked recursively along /Kids, which a corrupt file can close into a cycle.
+//@ func (*PageTree) traversePageNode results (err)
+//@   property C02
